@@ -28,6 +28,8 @@ MODEL_SWITCHES = [
     ("MC_Conc4", "MC_Conc4_bug8.cfg", "ScanOK", "right-to-left scan starting from a fresh version instead of the one of the validated descent (seeds C04b / C04c)"),
     ("MC_Conc6", "MC_Conc6_bug1.cfg", "ParentOK", "lock_parent without the re-check of the parent after locking"),
     ("MC_Conc6", "MC_Conc6_bug2.cfg", "LinOK", "interior split without the splitting mark"),
+    ("MC_Conc7", "MC_Conc7_bug1.cfg", "LinOK", "get_child_of accepts a deleted child: descent through a collapsed interior (seed C08d)"),
+    ("MC_Conc7", "MC_Conc7_bug2.cfg", "SwapOK", "lock_parent of a collapsing interior without the re-check of its parent"),
     ("YkEpoch", "MC_Epoch_bug.cfg", "SafeStrong", "F5: two-step enter"),
     ("YkLife", "MC_Life_bug.cfg", "ThreadsAliveWhileRunning", "F4: stop flags not cleared"),
     ("MC_Iscan", "MC_Iscan_bug15.cfg", "IscanPhantomOK", "F15: cursor opened in the gap between two entries of one absent slice reports no border"),
